@@ -2,6 +2,7 @@ package c14
 
 import (
 	"fmt"
+	"strings"
 	"testing"
 
 	"pgregory.net/rapid"
@@ -13,7 +14,7 @@ var known = ev.Matcher[Case]{}
 
 const rule = "real CLI, SQLite: commands {migrate diff, migrate validate --dev-url, migrate lint, schema apply --to file://schema.sql --dev-url, schema diff file:// -> file://} " +
 	"x dev database {empty file, file with tables+rows+index, file holding only a view, file with a table and a trigger, in-memory} x migration directories / SQL schemas of 1-3 files x 1-3 statements (tables with AUTOINCREMENT, indexes, views incl. view-only prefixes and end states, triggers) " +
-	"with a failing statement at every position or none. Oracle (independent connection, full dump incl. sqlite_master and sqlite_ bookkeeping tables, rows, rowids; directory listing + SHA-256 of every file): " +
+	"with a failing statement at every position or none; directory commands also with one file being a checkpoint (replay starts there) and, for lint, every window --latest N. Oracle (independent connection, full dump incl. sqlite_master and sqlite_ bookkeeping tables, rows, rowids; directory listing + SHA-256 of every file): " +
 	"non-empty dev => non-zero exit that says the database is not clean, dev dump unchanged; empty dev => dump after == dump before (no object left) whether the command succeeded or failed; " +
 	"directory files unchanged, except that migrate diff may add one file and rewrite atlas.sum. " +
 	"non-trivial = the replay executed >=1 statement on the dev database before the end/failure, or the dev database was non-empty; distinct key = (command, dev kind, shape, failure position)"
@@ -27,8 +28,11 @@ func TestCheck(t *testing.T) {
 	check := func(c Case) error {
 		out, err := checkCase(c)
 		col.Class(fmt.Sprintf("%s/dev=%s/exit=%v", c.Cmd, c.Dev, out.Exit != 0))
+		if c.Ckpt > 0 {
+			col.Class(c.Cmd + "/with-checkpoint-file")
+		}
 		if out.Executed > 0 || (c.Dev != "empty" && c.Dev != "memory") {
-			col.NonTrivial(fmt.Sprintf("%s|%s|%v|%d|%d", c.Cmd, c.Dev, c.Files, c.FailAt, c.Style))
+			col.NonTrivial(fmt.Sprintf("%s|%s|%v|%d|%d|%d|%d", c.Cmd, c.Dev, c.Files, c.FailAt, c.Style, c.Ckpt, c.Latest))
 		}
 		col.Sample(c.Cmd+"/"+c.Dev, c)
 		return err
@@ -65,6 +69,36 @@ func TestCheck(t *testing.T) {
 			}
 		}
 	}
+	// directories with a checkpoint file: replay starts at the checkpoint; lint analyses the window --latest N, which may
+	// hold the checkpoint file
+	ckShapes := [][]int{{2, 2}, {2, 1, 2}}
+	if col.Thorough() {
+		ckShapes = append(ckShapes, []int{1, 2, 3}, []int{2, 2, 2, 2})
+	}
+	for _, cmd := range []string{"migrate-lint", "migrate-validate", "migrate-diff"} {
+		for _, sh := range ckShapes {
+			total := 0
+			for _, n := range sh {
+				total += n
+			}
+			for ck := 1; ck <= len(sh); ck++ {
+				for latest := 1; latest <= len(sh); latest++ {
+					if cmd != "migrate-lint" && latest > 1 {
+						continue
+					}
+					for fail := -1; fail < total; fail++ {
+						i++
+						if !col.Mine(i) {
+							continue
+						}
+						if !ev.Each(col, "enumerated-checkpoint", Case{Cmd: cmd, Dev: "empty", Files: sh, FailAt: fail, Ckpt: ck, Latest: latest}, check, known) {
+							return
+						}
+					}
+				}
+			}
+		}
+	}
 	gen := func(t *rapid.T) Case {
 		c := Case{Cmd: rapid.SampledFrom(cmds).Draw(t, "cmd"), Dev: rapid.SampledFrom(devs).Draw(t, "dev")}
 		total := 0
@@ -75,6 +109,10 @@ func TestCheck(t *testing.T) {
 		}
 		c.FailAt = rapid.IntRange(-1, total-1).Draw(t, "fail")
 		c.Style = rapid.IntRange(0, 2).Draw(t, "style")
+		if strings.HasPrefix(c.Cmd, "migrate-") && rapid.IntRange(0, 2).Draw(t, "withckpt") == 0 {
+			c.Ckpt = rapid.IntRange(1, len(c.Files)).Draw(t, "ckpt")
+			c.Latest = rapid.IntRange(1, len(c.Files)).Draw(t, "latest")
+		}
 		return c
 	}
 	ev.Rapid(t, col, "random", col.N(30, 4000), gen, check, known)
